@@ -35,6 +35,16 @@ HN = ["left", "center", "right", "start", "end"]
 DIMS = [(640, 360), (1920, 1080), (None, None), (None, 360)]
 
 
+def build_with_history(acs, history, cs=None):
+    """the CaptionSet object of acs (or the given one) after the prior writes `history` = [(fmt, (rel, fit, w, h)), ...] on
+    that same object; their documents are not judged here (each is judged, for its own options, by the plain streams)"""
+    cs = posgen.build(acs) if cs is None else cs
+    for fmt, (rel, fit, w, h) in history or ():
+        W = DFXPWriter if fmt == "dfxp" else WebVTTWriter
+        impl.call(lambda: W(relativize=rel, fit_to_screen=fit, video_width=w, video_height=h).write(cs))
+    return cs
+
+
 def oq(x):
     return None if x is None else Some(exact(x))
 
@@ -266,15 +276,17 @@ def runs_match(runs, mine):
     return True
 
 
-def check_vtt_case(acs, cfg, res, printed, stats):
+def check_vtt_case(acs, cfg, res, printed, stats, history=None):
     rel, fit, w, h = cfg
-    cs = posgen.build(acs)
+    cs = build_with_history(acs, history)
     out = impl.call(lambda: WebVTTWriter(relativize=rel, fit_to_screen=fit, video_width=w, video_height=h).write(cs))
     res["evaluations"] += 1
     lg = acs["langs"][0]
     rs = oracle_batch([(1308, [posgen.w_cfg(cfg), posgen.w_optlayout(lg["layout"]), posgen.w_ncap(c)]) for c in lg["caps"]])
     ms = [r_result(r) for r in rs]
     base = {"replay": "vtt", "cfg": list(cfg), "input": acs}
+    if history:
+        base["history"] = [[f, list(c)] for f, c in history]
     if isinstance(out, Err) or any(isinstance(x, Err) for x in ms):
         stats["refused"] += 1          # refusal / error class is C13's business: counted
         return
@@ -376,6 +388,45 @@ def check_vtt_case(acs, cfg, res, printed, stats):
         res["disagreements"].append(dict(base, stream="vtt", impl=repr(cues)[:300], model="cue count %d" % k))
 
 
+def check_verbatim(doc, chosen, cfg, res, history=None):
+    """a WebVTT document read, (written by other writers first: history,) and written to WebVTT: cue settings verbatim"""
+    rel, fit, w, h = cfg
+    cs = impl.call(lambda: WebVTTReader().read(doc))
+    base = {"replay": "verbatim", "input": doc, "cfg": [rel, fit, w, h]}
+    if history:
+        base["history"] = [[f, list(c)] for f, c in history]
+    res["evaluations"] += 1
+    r = cs if isinstance(cs, Err) else impl.call(
+        lambda: WebVTTWriter(relativize=rel, fit_to_screen=fit, video_width=w, video_height=h).write(
+            build_with_history(None, history, cs=cs.v)))
+    if isinstance(r, Err):
+        res["violations"].append(dict(base, kind="vtt-verbatim-raises", impl_obs=repr(r),
+                                      what=f"WebVTT read+write of a document with cue settings raised {r!r}"))
+        return
+    got = [cu[1] for cu in vtt_cues(r.v)]
+    want = [(" " + st) if st else "" for st in chosen]
+    if got != want:
+        res["violations"].append(dict(base, kind="vtt-verbatim", impl_obs=repr(got),
+                                      what=f"cue settings {chosen!r} read from a WebVTT file were written back as {got!r}"
+                                           + (f" after the same CaptionSet object was written by {history!r}" if history else "")))
+
+
+SETTINGS = ["align:left", "position:10%,start line:5% size:50%", "line:-1", "vertical:rl align:end", "line:0 position:0%",
+            "size:35% align:right", "position:12.5%", "foo:bar", "align:center", "line:5%,end", "region:r1", "a:b  c:d",
+            "Align:LEFT", "position:10%,START size:50%", "X-Custom:Value", "align:middle\tline:1"]
+
+
+def verbatim_doc(rng):
+    k = rng.randint(1, 4)
+    chosen = [rng.choice(SETTINGS + [""]) for _ in range(k)]
+    doc = "WEBVTT\n\n"
+    for j, st in enumerate(chosen):
+        sep = rng.choice([" ", " ", "  ", "\t"]) if st else ""
+        tail = rng.choice(["", "", " "]) if st else ""
+        doc += f"00:00:{2 * j:02d}.000 --> 00:00:{2 * j + 1:02d}.500{sep}{st}{tail}\nword{j} text\n\n"
+    return doc, chosen
+
+
 def stream_vtt(ctx, res, printed):
     rng = ctx.rng
     stats = {"split": 0, "mixed": 0, "refused": 0, "span": 0, "cue_settings": 0}
@@ -418,36 +469,15 @@ def stream_vtt(ctx, res, printed):
     res["distribution"]["vtt_end_to_end_cues_judged_by_the_settings_oracle"] = stats["cue_settings"]
     res["distribution"]["vtt_captions_with_a_span_layout_not_split(known finding)"] = stats["span"]
     # verbatim cue settings
-    SETTINGS = ["align:left", "position:10%,start line:5% size:50%", "line:-1", "vertical:rl align:end", "line:0 position:0%",
-                "size:35% align:right", "position:12.5%", "foo:bar", "align:center", "line:5%,end", "region:r1", "a:b  c:d",
-                "Align:LEFT", "position:10%,START size:50%", "X-Custom:Value", "align:middle\tline:1"]
     nver = 0
     for i in range(ctx.n(250, 5000)):
-        k = rng.randint(1, 4)
-        chosen = [rng.choice(SETTINGS + [""]) for _ in range(k)]
-        doc = "WEBVTT\n\n"
-        for j, st in enumerate(chosen):
-            sep = rng.choice([" ", " ", "  ", "\t"]) if st else ""
-            tail = rng.choice(["", "", " "]) if st else ""
-            doc += f"00:00:{2 * j:02d}.000 --> 00:00:{2 * j + 1:02d}.500{sep}{st}{tail}\nword{j} text\n\n"
+        doc, chosen = verbatim_doc(rng)
         rel, fit = rng.random() < 0.5, rng.random() < 0.5
         w, h = rng.choice(DIMS)
-        r = impl.call(lambda: WebVTTWriter(relativize=rel, fit_to_screen=fit, video_width=w, video_height=h).write(
-            WebVTTReader().read(doc)))
-        res["evaluations"] += 1
-        base = {"replay": "verbatim", "input": doc, "cfg": [rel, fit, w, h]}
-        if isinstance(r, Err):
-            res["violations"].append(dict(base, kind="vtt-verbatim-raises", impl_obs=repr(r),
-                                          what=f"WebVTT read+write of a document with cue settings raised {r!r}"))
-            continue
-        got = [cu[1] for cu in vtt_cues(r.v)]
-        want = [(" " + st) if st else "" for st in chosen]
         if any(chosen):
             nver += 1
             res["nontrivial"].add(("verbatim", doc))
-        if got != want:
-            res["violations"].append(dict(base, kind="vtt-verbatim", impl_obs=repr(got),
-                                          what=f"cue settings {chosen!r} read from a WebVTT file were written back as {got!r}"))
+        check_verbatim(doc, chosen, (rel, fit, w, h), res)
     res["distribution"]["vtt_verbatim_documents"] = nver
 
 
@@ -482,13 +512,16 @@ def near(rng, l):
     return tuple(l)
 
 
-def check_dfxp_case(acs, cfg, res):
+def check_dfxp_case(acs, cfg, res, history=None):
     """returns an outcome tag"""
     rel, fit, w, h = cfg
+    cs = build_with_history(acs, history)
     r = impl.call(lambda: DFXPReader().read(DFXPWriter(relativize=rel, fit_to_screen=fit, video_width=w,
-                                                       video_height=h).write(posgen.build(acs))))
+                                                       video_height=h).write(cs)))
     res["evaluations"] += 1
     base = {"replay": "dfxp", "cfg": list(cfg), "input": acs}
+    if history:
+        base["history"] = [[f, list(c)] for f, c in history]
     m = r_result(oracle_batch([(1306, [posgen.w_cfg(cfg), posgen.w_nset(acs)])])[0])
     if isinstance(r, Err) or isinstance(m, Err):
         if isinstance(r, Err) and isinstance(m, Err) and r.code == m.code:
@@ -633,6 +666,78 @@ def stream_dfxp(ctx, res):
     res["distribution"]["dfxp_level_subsets"] = [list(x) for x in level_sets]
 
 
+# ------------------------------------------------------------------------------------------------ D
+DEFAULT_CFG = (True, True, None, None)     # DFXPWriter() / WebVTTWriter(): relativize and fit_to_screen on, no video size
+
+
+def stream_history(ctx, res, printed):
+    """two writes of ONE CaptionSet object: a writer must not change the caller's layouts, so the second document is judged
+    by the same oracles, for its own options, as if the set had never been written (the first document, written from a
+    fresh object, is what the other streams judge)"""
+    rng = ctx.rng
+    out = {}
+    stats = {"split": 0, "mixed": 0, "refused": 0, "span": 0, "cue_settings": 0}
+
+    def count(k):
+        out[k] = out.get(k, 0) + 1
+    # deterministic: origin without an extent (fitting in place would invent one: WebVTT gains size:80%, the second DFXP
+    # round trip returns an extent never set), at language / caption / span level
+    O = (((10, 2), (10, 2)), None, None, None, None)
+    O2 = (((25, 2), (40, 2)), None, ((1, 2), (2, 2), (3, 2), (4, 2)), (2, 0), None)
+    det = []
+    for ll, cl, nl in ((O, None, None), (None, O, None), (None, None, O), (O, O2, None), (None, O2, O), (O2, None, O)):
+        nodes = [["text", "aa0", None], ["break", None]] + \
+            ([["style", True, nl], ["text", "bb1", nl], ["style", False, nl]] if nl else [["text", "bb1", None]])
+        det.append({"global": None, "langs": [{"name": "en-US", "layout": ll, "caps": [{"layout": cl, "nodes": nodes}]}]})
+    firsts = [("dfxp", DEFAULT_CFG), ("vtt", DEFAULT_CFG), ("dfxp", (True, True, 640, 360)), ("vtt", (True, False, 640, 360))]
+    for acs in det:
+        for first in firsts:
+            for cfg in ((False, False, None, None), (True, False, None, None), (True, True, 640, 360)):
+                count(first[0] + ">dfxp:" + check_dfxp_case(acs, cfg, res, history=[first]))
+                n0 = len(res["violations"]) + len(res["disagreements"])
+                check_vtt_case(acs, cfg, res, printed, stats, history=[first])
+                count(first[0] + ">vtt:" + ("ok" if len(res["violations"]) + len(res["disagreements"]) == n0 else "reported"))
+    # random caption sets (the generators of streams B and C), first write by a default DFXPWriter / WebVTTWriter (or one
+    # with a video size, for absolute units), second write with other options
+    for i in range(ctx.n(160, 4000)):
+        absolute = rng.random() < 0.25
+        units = (0, 2) if absolute else (2,)
+        first = (rng.choice(["dfxp", "dfxp", "vtt"]), (True, rng.random() < 0.8, 640, 360) if absolute or rng.random() < 0.3 else DEFAULT_CFG)
+        rel = rng.random() < 0.6 or absolute
+        fit = rng.random() < 0.3
+        w, h = rng.choice(DIMS[:2])
+        pool = [posgen.gen_layout(rng, units, p_none=0.3) for _ in range(3)]
+        acs = posgen.gen_capset(rng, units, nlangs=(1, 2), ncaps=(1, 3), levels=("lang", "cap", "node"), pool=pool, p_level=0.6,
+                                bare_text_layouts=(i % 5 == 0), break_layouts=(i % 3 == 0), with_global=(i % 6 == 2))
+        if i % 2 == 0:
+            key = check_dfxp_case(acs, (rel, fit, w, h), res, history=[first])
+            count(first[0] + ">dfxp:" + key)
+            if key == "ok":
+                res["nontrivial"].add(("history-dfxp", repr(acs), repr(first), rel, fit))
+        else:
+            acs["langs"] = acs["langs"][:1]
+            n0 = len(res["violations"]) + len(res["disagreements"])
+            check_vtt_case(acs, (rel, fit, w, h), res, printed, stats, history=[first])
+            ok = len(res["violations"]) + len(res["disagreements"]) == n0
+            count(first[0] + ">vtt:" + ("ok" if ok else "reported"))
+            if ok:
+                res["nontrivial"].add(("history-vtt", repr(acs), repr(first), rel, fit))
+    # a WebVTT-read set written by a DFXP / WebVTT writer first, then to WebVTT: the cue settings are still written verbatim
+    for i in range(ctx.n(120, 3000)):
+        doc, chosen = verbatim_doc(rng)
+        first = [(rng.choice(["dfxp", "vtt"]), rng.choice([DEFAULT_CFG, (True, True, 640, 360), (True, False, 640, 360)]))]
+        if i % 4 == 0:
+            first.append(("dfxp", DEFAULT_CFG))
+        rel, fit = rng.random() < 0.5, rng.random() < 0.5
+        w, h = rng.choice(DIMS)
+        n0 = len(res["violations"])
+        check_verbatim(doc, chosen, (rel, fit, w, h), res, history=first)
+        count("vtt-read>" + first[0][0] + ">vtt:" + ("ok" if len(res["violations"]) == n0 else "reported"))
+        if any(chosen):
+            res["nontrivial"].add(("history-verbatim", doc, repr(first)))
+    res["distribution"]["history(two writes of one CaptionSet object; the second document judged for its own options)"] = out
+
+
 NEAR_TIES = [0]
 SET_FALLBACK = [0]
 
@@ -659,15 +764,18 @@ def close_layout(a, b, tol=Fraction(1, 10**9)):
 def run(ctx):
     from props.C13 import Printed
     res = {"evaluations": 0, "nontrivial": set(), "violations": [], "disagreements": [], "distribution": {},
-           "streams": 3, "notes": []}
+           "streams": 4, "notes": []}
     printed = Printed()
     stream_settings(ctx, res, printed)
     stream_vtt(ctx, res, printed)
     stream_dfxp(ctx, res)
+    stream_history(ctx, res, printed)
     res["rule"] = ("settings: all 6x4 alignment pairs x padding/extent presence on a value grid + random layouts (percent, absolute "
                    "with video sizes, raw settings) x relativize x fit; WebVTT documents: captions with per-node layouts drawn from "
                    "a small pool (runs of equal layouts), verbatim settings documents; DFXP: layouts attached at every subset of "
-                   "{language, caption, node} from a pool with a near-equal twin x relativize x fit. Non-trivial: arithmetic checked / "
+                   "{language, caption, node} from a pool with a near-equal twin x relativize x fit; HISTORY: the same generators, "
+                   "the CaptionSet object written once by a (default) DFXPWriter / WebVTTWriter before the judged write with other "
+                   "options (DFXP -> DFXP -> read, DFXP -> WebVTT, WebVTT-read -> DFXP -> WebVTT verbatim). Non-trivial: arithmetic checked / "
                    "caption split into several cues / a settings document / a DFXP case with some layout.")
     res["samples"] = [{"settings": "origin 10% 20% extent 50% 10% padding 1% 2% 3% 4% align right"},
                       {"vtt": "caption [text(L1), break, text(L2)] -> two cues, same times"},
@@ -691,8 +799,9 @@ def replay(ctx, rec):
     res = {"evaluations": 0, "nontrivial": set(), "violations": [], "disagreements": [], "distribution": {}}
     if tag == "verbatim":
         rel, fit, w, h = rec["cfg"]
+        hist = [(f, tuple(c)) for f, c in rec.get("history") or []]
         r = impl.call(lambda: WebVTTWriter(relativize=rel, fit_to_screen=fit, video_width=w, video_height=h).write(
-            WebVTTReader().read(rec["input"])))
+            build_with_history(None, hist, cs=WebVTTReader().read(rec["input"]))))
         if isinstance(r, Err):
             return True, repr(r)
         got = [cu[1] for cu in vtt_cues(r.v)]
@@ -718,10 +827,12 @@ def replay(ctx, rec):
             return True, o.v
         return oracle_batch([(1310, [geom.a_layout_w(t.v), ws])])[0] != 1, o.v
     if tag in ("dfxp", "vtt"):
+        hist = [(f, tuple(c)) for f, c in rec.get("history") or []]
         if tag == "dfxp":
-            check_dfxp_case(rec["input"], tuple(rec["cfg"]), res)
+            check_dfxp_case(rec["input"], tuple(rec["cfg"]), res, history=hist)
         else:
-            check_vtt_case(rec["input"], tuple(rec["cfg"]), res, Printed(), {"split": 0, "mixed": 0, "refused": 0, "span": 0, "cue_settings": 0})
+            check_vtt_case(rec["input"], tuple(rec["cfg"]), res, Printed(),
+                           {"split": 0, "mixed": 0, "refused": 0, "span": 0, "cue_settings": 0}, history=hist)
         same = [v for v in res["violations"] if v.get("kind") == rec.get("kind")]
         return bool(same), (same or [{"what": "ok (other kinds seen: %r)" % [v.get("kind") for v in res["violations"]]}])[0]["what"]
     return False, "unknown replay tag"
